@@ -283,6 +283,6 @@ def prebuild(tier):
 
 
 TRUSTED = ["A1 for the support obligations (nf)", "A6 clang/irsx incl. execution of Eigen's sparse containers and of the static initialisers",
-           "A7 groups, host sizes (Dof+{0,2,5}) and offsets {0,1,3} sampled; double only", "A8 scalar Eigen paths",
+           "A7 groups, host sizes (Dof+{0,1,2,5}), offsets {0,1,3} and Hessian hosts with n, n+2, n-1 stacked blocks sampled; double only", "A8 scalar Eigen paths",
            "op-DAG identity => bit-identical values"]
 ASSUMPTIONS = ["host matrix is compressed and contains the published pattern at the block offset (contract precondition)"]
